@@ -81,6 +81,9 @@ def check_case(ctx, cs):
                 Y = build(a, edit_back=True, **extra)
                 if not (X == Y and Y == X) or (X != Y):
                     ctx.violate(site, tg + ["weights_corrected_by_edit_back"], small, {"X==Y": X == Y})
+                Z = build(a, by_setters=True, **extra)
+                if not (X == Z and Z == X) or (X != Z):
+                    ctx.violate(site, tg + ["built_by_setters"], small, {"X==Z": X == Z})
             except Exception as e:
                 ctx.violate(site, tg + ["weights_corrected_by_edit_back", "raises"], small, {"exception": repr(e)[:200]})
         # (1) a deep copy that re-assigns its own unweighted control points (getters not used before) still equals its source
